@@ -14,3 +14,6 @@ open RV.C18
 #print axioms binding_survives_rollback
 #print axioms nested_outer_refines_spec
 #print axioms nested_inner_rollback_restores
+#print axioms contexts_kept_by_rollback
+#print axioms new_graph_name_survives_rollback
+#print axioms code_two_wrappers_disjoint
